@@ -3,8 +3,13 @@
    (with attribute-value normalisation, 3.3.3), character data, CDATA sections, the five predefined
    entities, decimal and hexadecimal character references, comments and processing instructions
    (skipped), end-of-line normalisation (2.11).  Outside the subset (rejected): DOCTYPE declarations,
-   hence general entities other than the predefined ones.  Nothing here mentions pugixml or
-   BitSerializer.  Text is a list of code points (see JxJsonSpec for the byte level). *)
+   hence general entities other than the predefined ones.  The subset is strict in the two places
+   where a token-level reader is easily too generous: outside the document element only literal
+   white space, comments and processing instructions are read (Misc, production 27: no character
+   references, no CDATA sections, not even an empty one), and the values of the pseudo-attributes of
+   the XML declaration are literal text (VersionNum, EncName, yes or no: no references are
+   expanded there).  Nothing here mentions pugixml or BitSerializer.  Text is a list of code points
+   (see JxJsonSpec for the byte level). *)
 From BS Require Import Base UtfSpec UtfModel JxJsonSpec.
 Local Open Scope N_scope.
 
@@ -106,7 +111,7 @@ Fixpoint lex_text (st : option (list N)) (acc : list N) (s : list N) {struct s} 
     | None =>
       if c =? 60 then Some (rev acc, s)
       else if c =? 38 then lex_text (Some []) acc r
-      else if (c =? 93) && starts [93; 62] r then None                    (* "]]>" must not appear in content *)
+      else if (c =? 93) && starts [93; 62] r then None                    (* no ]]> in content *)          
       else if xml_char c then lex_text None (c :: acc) r
       else None
     | Some ra =>
@@ -142,6 +147,12 @@ Fixpoint lex_attval (q : N) (st : option (list N)) (acc : list N) (s : list N) {
     end
   end.
 
+(* the value of a pseudo-attribute of the XML declaration after the opening quote q: the literal text up to the
+   closing quote (productions 24, 26, 32, 80, 81 have no references) *)
+Definition lex_declval (q : N) (s : list N) : option (list N * list N) :=
+  let (v, r) := span (fun c => negb (c =? q)) s in
+  match r with _ :: r' => Some (v, r') | [] => None end.
+
 (* ------------------------------------------------------------------ tags *)
 
 Inductive tagend := EndTag | EndEmpty | EndDecl.      (* '>'  '/>'  '?>' *)
@@ -173,7 +184,7 @@ Fixpoint lex_attrs (fuel : nat) (decl : bool) (s : list N) (acc : list (list N *
                 match skip_ws r2 with
                 | q :: r3 =>
                   if (q =? 34) || (q =? 39) then
-                    match lex_attval q None [] r3 with
+                    match (if decl then lex_declval q r3 else lex_attval q None [] r3) with
                     | Some (v, r4) => if has_key n acc then None else lex_attrs f decl r4 ((n, v) :: acc)
                     | None => None
                     end
@@ -217,7 +228,9 @@ Definition xlcons (t : xtok) (r : xlres) : xlres := match r with XLOk ts => XLOk
 Definition lower (c : N) : N := if (65 <=? c) && (c <=? 90) then c + 32 else c.
 Definition is_xml_target (n : list N) : bool := list_eqb (map lower n) [120; 109; 108].
 
-Fixpoint xlex (fuel : nat) (s : list N) : xlres :=
+(* depth = the number of open elements: outside the document element (depth 0) only white space, comments and
+   processing instructions may stand between the tags (Misc), and no end tag *)
+Fixpoint xlex (fuel : nat) (depth : nat) (s : list N) : xlres :=
   match fuel with
   | O => XLFuel
   | S f =>
@@ -231,7 +244,12 @@ Fixpoint xlex (fuel : nat) (s : list N) : xlres :=
           if c1 =? 47 then                                               (* ETag ::= '</' Name S? '>' *)
             match lex_name r1 with
             | Some (n, r2) => match skip_ws r2 with
-                              | e :: r3 => if e =? 62 then xlcons (XClose n) (xlex f r3) else XLErr
+                              | e :: r3 => if e =? 62 then
+                                             match depth with
+                                             | O => XLErr
+                                             | S d => xlcons (XClose n) (xlex f d r3)
+                                             end
+                                           else XLErr
                               | [] => XLErr
                               end
             | None => XLErr
@@ -244,7 +262,7 @@ Fixpoint xlex (fuel : nat) (s : list N) : xlres :=
                 match r2 with
                 | c2 :: _ =>
                   if is_xws c2 || starts [63; 62] r2 then
-                    match scan_until [63; 62] r2 with Some (_, r3) => xlex f r3 | None => XLErr end
+                    match scan_until [63; 62] r2 with Some (_, r3) => xlex f depth r3 | None => XLErr end
                   else XLErr
                 | [] => XLErr
                 end
@@ -252,18 +270,22 @@ Fixpoint xlex (fuel : nat) (s : list N) : xlres :=
             end
           else if c1 =? 33 then
             match strip_prefix [45; 45] r1 with
-            | Some r2 =>                                                 (* Comment: no "--" inside *)
+            | Some r2 =>                                                 (* Comment: no -- inside *)  
               match scan_until [45; 45] r2 with
-              | Some (_, e :: r3) => if e =? 62 then xlex f r3 else XLErr
+              | Some (_, e :: r3) => if e =? 62 then xlex f depth r3 else XLErr
               | _ => XLErr
               end
             | None =>
               match strip_prefix [91; 67; 68; 65; 84; 65; 91] r1 with   (* CDSect *)
               | Some r2 =>
-                match scan_until [93; 93; 62] r2 with
-                | Some ([], r3) => xlex f r3
-                | Some (t, r3) => xlcons (XTxt t) (xlex f r3)
-                | None => XLErr
+                match depth with
+                | O => XLErr                                             (* not in Misc, not even an empty one *)
+                | S _ =>
+                  match scan_until [93; 93; 62] r2 with
+                  | Some ([], r3) => xlex f depth r3
+                  | Some (t, r3) => xlcons (XTxt t) (xlex f depth r3)
+                  | None => XLErr
+                  end
                 end
               | None => XLErr                                            (* DOCTYPE etc.: outside the subset *)
               end
@@ -272,17 +294,23 @@ Fixpoint xlex (fuel : nat) (s : list N) : xlres :=
             match lex_name r with
             | Some (n, r2) =>
               match lex_attrs f false r2 [] with
-              | Some (a, EndTag, r3) => xlcons (XOpen n a) (xlex f r3)
-              | Some (a, EndEmpty, r3) => xlcons (XEmpty n a) (xlex f r3)
+              | Some (a, EndTag, r3) => xlcons (XOpen n a) (xlex f (S depth) r3)
+              | Some (a, EndEmpty, r3) => xlcons (XEmpty n a) (xlex f depth r3)
               | _ => XLErr
               end
             | None => XLErr
             end
         end
       else
-        match lex_text None [] s with
-        | Some (t, r') => xlcons (XTxt t) (xlex f r')
-        | None => XLErr
+        match depth with
+        | O =>                                                           (* S in Misc: literal white space only *)
+          let (w, r') := span is_xws s in
+          match w with [] => XLErr | _ :: _ => xlex f 0 r' end
+        | S _ =>
+          match lex_text None [] s with
+          | Some (t, r') => xlcons (XTxt t) (xlex f depth r')
+          | None => XLErr
+          end
         end
     end
   end.
@@ -342,12 +370,6 @@ Inductive xres := XOk (root : xnode) | XErr | XFuel.
 
 Definition ws_only (s : list N) : bool := forallb is_xws s.
 
-Definition drop_ws_txt (ts : list xtok) : list xtok :=
-  match ts with
-  | XTxt s :: r => if ws_only s then r else ts
-  | _ => ts
-  end.
-
 (* XMLDecl ::= '<?xml' VersionInfo EncodingDecl? SDDecl? S? '?>' : the pseudo-attributes, in this order *)
 Definition version_ok (v : list N) : bool :=
   match v with
@@ -402,13 +424,14 @@ Definition xml_parse_cps (s0 : list N) : xres :=
   match split_decl s with
   | None => XErr
   | Some (_, s1) =>
-    match xlex (S (length s1)) s1 with
+    match xlex (S (length s1)) 0 s1 with
     | XLErr => XErr
     | XLFuel => XFuel
     | XLOk ts =>
-      let ts1 := drop_ws_txt (merge_txt ts) in
+      let ts1 := merge_txt ts in
       match xbuild (2 * length ts1 + 2) ts1 with
-      | BOk root rest => match drop_ws_txt rest with [] => XOk root | _ => XErr end
+      | BOk root [] => XOk root
+      | BOk _ (_ :: _) => XErr                        (* exactly one document element *)
       | BErr => XErr
       | BFuel => XFuel
       end
@@ -465,7 +488,7 @@ Fixpoint xtokens_of (x : xnode) : list xtok :=
   | XText s => [XTxt s]
   end.
 
-(* <?xml version="1.0"?> *)
+(* <?xml version=[dq]1.0[dq]?> *)
 Definition xml_decl_text : list N :=
   [60; 63; 120; 109; 108; 32; 118; 101; 114; 115; 105; 111; 110; 61; 34; 49; 46; 48; 34; 63; 62].
 
